@@ -301,18 +301,21 @@ pub fn c08() -> i32 {
     let mut states = Vec::new();
     // (name, base scenario, rounds at which to inject)
     let mut bases: Vec<(Scenario, Vec<i32>)> = Vec::new();
-    for (w, spec, tp) in [(2usize, false, "1+1"), (0, false, "1+1"), (8, true, "1+1"), (3, false, "1+2")] {
+    // the last two bases run with the five-byte input type (frames of 5 and 10 bytes on the wire)
+    for (w, spec, tp, wide) in [(2usize, false, "1+1", false), (0, false, "1+1", false), (8, true, "1+1", false), (3, false, "1+2", false), (2, false, "1+1", true), (3, true, "1+2", true)] {
         // running phase (rollback-heavy: changing inputs, 1 round of latency)
-        let mut s = base_scn("c08-running", tp, w, 0, false, Pred::RepeatLast, Program::Changing, 1);
+        let mut s = base_scn(if wide { "c08-running-wide" } else { "c08-running" }, tp, w, 0, false, Pred::RepeatLast, Program::Changing, 1);
+        s.wide = wide;
         if spec {
             s.specs.push(SpecSpec::new(20, s.peers[0].addr));
         }
         s.horizon = 14;
         s.probe = 30;
         s.checks = CK_CORE;
-        bases.push((s, if t { (0..12).collect() } else { vec![0, 1, 4, 9] }));
+        bases.push((s, if t { (0..12).collect() } else if wide { vec![1, 4] } else { vec![0, 1, 4, 9] }));
         // handshake phase
-        let mut s = base_scn("c08-handshake", tp, w, 0, false, Pred::RepeatLast, Program::Changing, 1);
+        let mut s = base_scn(if wide { "c08-handshake-wide" } else { "c08-handshake" }, tp, w, 0, false, Pred::RepeatLast, Program::Changing, 1);
+        s.wide = wide;
         if spec {
             s.specs.push(SpecSpec::new(20, s.peers[0].addr));
         }
@@ -320,7 +323,7 @@ pub fn c08() -> i32 {
         s.horizon = 16;
         s.probe = 40;
         s.checks = CK_CORE;
-        bases.push((s, if t { (0..14).collect() } else { vec![0, 2, 5, 9, 11] }));
+        bases.push((s, if t { (0..14).collect() } else if wide { vec![2, 9] } else { vec![0, 2, 5, 9, 11] }));
     }
     // endpoints whose first draw for their magic number is 0 (the value the receiving side
     // uses for "peer not known yet"): the draw has to be repeated, otherwise the peer's magic
@@ -385,7 +388,7 @@ pub fn c08() -> i32 {
                 forged.retain(|f| f.0 != "extra-frames-of-size-s+1");
             } else {
                 // no authentic input exists yet (early handshake): forge one from scratch
-                let m = WMessage { magic: b_magic, body: WBody::Input(WInput { peer_connect_status: vec![WConn { disconnected: false, last_frame: -1 }; base.num_players], disconnect_requested: false, start_frame: 0, ack_frame: -1, bytes: codec::encode(&[0], [vec![3u8]].iter()) }) };
+                let m = WMessage { magic: b_magic, body: WBody::Input(WInput { peer_connect_status: vec![WConn { disconnected: false, last_frame: -1 }; base.num_players], disconnect_requested: false, start_frame: 0, ack_frame: -1, bytes: if base.wide { let one = bincode::serialize(&crate::types::Wide::of(3)).unwrap(); let fr: Vec<u8> = one.iter().cycle().take(one.len() * base.peers[1].locals.len()).copied().collect(); codec::encode(&vec![0; fr.len()], [fr].iter()) } else { codec::encode(&[0], [vec![3u8]].iter()) } }) };
                 forged.extend(forgeries(&m, base.num_players, payloads));
             }
             forged.extend(foreign_kinds(b_magic));
